@@ -580,3 +580,35 @@ Example pinned_enabled_list_omits_custom_rule :
   determine_enabled_rules_pinned no_params merged [] (fun _ _ => false) = [] /\
   determine_enabled_rules no_params merged [] (fun _ _ => false) custom = [[114]].
 Proof. vm_compute. repeat split. Qed.
+
+(* witnesses against the pinned behaviour, used by Props/C04.v *)
+Lemma go_levels_eq_chain_pinned_refuted_lemma :
+  exists (provided : rules_map) (u : config) (cat title : str),
+    rules_map_wf (c_rules u) = true /\
+    rule_level_of provided cat title = Some s_error /\
+    rule_level_of (load_config_pinned provided (Some u)) cat title = Some s_error /\
+    spec_config_level (opt_str (rule_level_of (c_rules u) cat title))
+                      (opt_str (assoc cat (c_cat_defaults u))) (c_global u) s_error = s_ignore.
+Proof.
+  exists [([99], [([114], s_error)])], (mkConfig [] [([99], [])] s_ignore), [99], [114].
+  vm_compute. repeat split.
+Qed.
+
+Lemma custom_same_as_builtin_pinned_refuted_lemma :
+  exists (user : config) (cat title : str),
+    let merged := linter_config_pinned [] (Some user) in
+    impl_decision (custom_can_report no_params merged cat title false)
+                  (violation_level no_params merged cat title) = On s_error /\
+    spec_decision no_params cat title (spec_user_level (Some user) cat title s_error) = Off.
+Proof.
+  exists (mkConfig [] [] s_ignore), [99], [114]. vm_compute. split; reflexivity.
+Qed.
+
+Lemma enabled_list_exact_pinned_refuted_lemma :
+  exists (custom : list (str * str)) (c t : str),
+    let merged := linter_config [] None custom in
+    In (c, t) custom /\ custom_can_report no_params merged c t false = true /\
+    ~ In t (determine_enabled_rules_pinned no_params merged [] (fun _ _ => false)).
+Proof.
+  exists [([99], [114])], [99], [114]. simpl. split; [left; reflexivity|]. split; [reflexivity|]. intros [].
+Qed.
